@@ -79,16 +79,51 @@ def gen():
                 muts.append((rel, i, l, '', 'del'))
             if s.endswith(';') and re.match(r'^\*?[a-z_][\w.\[\]]* (\+=|-=|\*=) ', s):
                 muts.append((rel, i, l, '', 'del'))
+    # ---- multi-line operators: delete a whole rejecting guard; change a byte-string label; swap two adjacent arguments
+    for rel in FILES:
+        pth = os.path.join('/repo', rel)
+        if not os.path.exists(pth):
+            continue
+        lines = open(pth).read().split('\n')
+        stop = next((i for i, l in enumerate(lines) if l.strip().startswith('#[cfg(test)]') or l.strip().startswith('mod test')), len(lines))
+        i = 0
+        while i < stop:
+            l = lines[i]
+            st = l.strip()
+            if st.startswith('if ') and st.endswith('{'):
+                # find the matching close at the same indentation; the body must be a single `return Err(..);`
+                ind = len(l) - len(l.lstrip())
+                j = i + 1
+                while j < stop and not (lines[j].startswith(' ' * ind + '}') and len(lines[j]) - len(lines[j].lstrip()) == ind):
+                    j += 1
+                body = ' '.join(x.strip() for x in lines[i + 1:j])
+                if j < stop and lines[j].strip() == '}' and body.startswith('return Err(') and body.endswith(';') and j - i <= 8:
+                    muts.append((rel, i, '\n'.join(lines[i:j + 1]), '', 'delguard', j))
+            for m in re.finditer(r'b"([A-Za-z0-9 _\-]+)"', l):
+                lit = m.group(1)
+                new_lit = lit[:-1] + ('x' if lit[-1] != 'x' else 'y')
+                muts.append((rel, i, l, l[:m.start()] + 'b"' + new_lit + '"' + l[m.end():], 'bytelit'))
+            for m in re.finditer(r'"(alpha|dL|dR|d|eta)"', l):
+                lit = m.group(1)
+                other = {'alpha': 'eta', 'dL': 'dR', 'dR': 'dL', 'd': 'eta', 'eta': 'd'}[lit]
+                muts.append((rel, i, l, l[:m.start()] + '"' + other + '"' + l[m.end():], 'bytelit'))
+            m = re.search(r'\(([^(),]+), ([^(),]+)\)', l)
+            if m and st.endswith(';') and not st.startswith('let (') and m.group(1).strip() != m.group(2).strip() and 'fn ' not in st and '"' not in m.group(0):
+                muts.append((rel, i, l, l[:m.start()] + '(' + m.group(2) + ', ' + m.group(1) + ')' + l[m.end():], 'argswap'))
+            i += 1
     seen, out = set(), []
     for m in muts:
         k = (m[0], m[1], m[3])
         if k in seen or m[2] == m[3]:
             continue
         seen.add(k)
-        out.append({'id': len(out), 'file': m[0], 'line': m[1] + 1, 'old': m[2], 'new': m[3], 'op': m[4]})
+        d_ = {'id': len(out), 'file': m[0], 'line': m[1] + 1, 'old': m[2], 'new': m[3], 'op': m[4]}
+        if len(m) > 5:
+            d_['last_line'] = m[5] + 1
+        out.append(d_)
     os.makedirs(OUT, exist_ok=True)
     json.dump(out, open(os.path.join(OUT, 'mutants.json'), 'w'), indent=0)
-    print(len(out), 'mutants', {o: sum(1 for m in out if m['op'] == o) for o in ('rel', 'ari', 'lit', 'adapt', 'swap', 'del')})
+    print(len(out), 'mutants', {o: sum(1 for m in out if m['op'] == o) for o in ('rel', 'ari', 'lit', 'adapt', 'swap', 'del', 'delguard', 'bytelit', 'argswap')})
 
 
 def export(d):
@@ -98,8 +133,12 @@ def export(d):
 def apply(d, m):
     p = os.path.join(d, m['file'])
     ls = open(p).read().split('\n')
-    assert ls[m['line'] - 1] == m['old'], 'source moved'
-    ls[m['line'] - 1] = m['new']
+    if m.get('last_line'):
+        assert '\n'.join(ls[m['line'] - 1:m['last_line']]) == m['old'], 'source moved'
+        ls[m['line'] - 1:m['last_line']] = []
+    else:
+        assert ls[m['line'] - 1] == m['old'], 'source moved'
+        ls[m['line'] - 1] = m['new']
     open(p, 'w').write('\n'.join(ls))
 
 
